@@ -48,7 +48,19 @@ class QuietFlow(bt.Algo):
         return True
 
 
-USER_ALGOS = {"QuietFlow": QuietFlow}
+class SetCash(bt.Algo):
+    """a user algo asking Rebalance to keep a cash reserve (temp['cash'] is read by the stock Rebalance)"""
+
+    def __init__(self, fraction):
+        super(SetCash, self).__init__()
+        self.fraction = float(fraction)
+
+    def __call__(self, target):
+        target.temp["cash"] = self.fraction
+        return True
+
+
+USER_ALGOS = {"QuietFlow": QuietFlow, "SetCash": SetCash}
 
 
 def mk_algo(d, ctx):
@@ -354,6 +366,9 @@ def gen_stack(rng, rs, spec, names, priced, prefix, opts, is_child=False):
         st.append({"a": "WeighTarget", "args": [fn]})
         desc.append("pte")
     tail = spec.pop("_tail", [])
+    if opts.get("cash_reserve") and rng.random() < opts["cash_reserve"]:
+        st.append({"a": "SetCash", "args": [rng.choice([0.1, 0.25, 0.5])]})
+        desc.append("cash")
     if rng.random() < 0.8:
         st.append({"a": "Rebalance"})
         desc.append("rebalance")
